@@ -28,11 +28,15 @@ def plan(thorough):
         else:
             units.append(("int", 2, "std", ("name",), nl, 3 if thorough else 2))
     units.append(("invalid",))
+    units += [("extra", f) for f in ("skew", "args", "dupnames", "twice", "self", "expectstr")]
     return units
 
 
 def run_unit(unit):
     from serif.errors import SerifValueError
+    if unit[0] == "extra":
+        from mc import joinextra
+        return joinextra.run_extra_unit(unit, METHODS, all_expects=True)
     agg = Agg()
     if unit[0] == "invalid":
         for lkeys, rkeys in js.cases(("int", 1, "std", ("name",), 0, 2)):
@@ -58,6 +62,25 @@ def run_unit(unit):
                                     agg.outcomes["invalid-expect-rejected"] += 1
                                 except Exception as e:
                                     agg.violation(V(f"{method}.expect", "invalid-expect-raises-" + type(e).__name__, case, "SerifValueError", repr(e)[:80]))
+                                # a rejected call leaves nothing behind: every valid expectation still means what it says
+                                for ex2, (need_l, need_r) in VALID.items():
+                                    must = (need_l and not js.unique(lkeys)) or (need_r and not js.unique(rkeys))
+                                    agg.evals += 1; agg.transitions += 1; agg.compared += 1
+                                    c2 = dict(case, history=[f"{method}(expect={ex!r}) rejected", f"{method}(expect={ex2!r})"])
+                                    try:
+                                        getattr(L, method)(R, left_on=lon, right_on=ron, expect=ex2)
+                                        r2 = None
+                                    except SerifValueError as e:
+                                        r2 = e
+                                    except Exception as e:
+                                        agg.violation(V(f"{method}.after-rejected-expect", "raises-" + type(e).__name__, c2, None, repr(e)[:80]))
+                                        continue
+                                    if must and r2 is None:
+                                        agg.violation(V(f"{method}.after-rejected-expect", "accepts-violated-expectation", c2))
+                                    elif not must and r2 is not None:
+                                        agg.violation(V(f"{method}.after-rejected-expect", "refuses-holding-expectation", c2, "rows", repr(r2)[:80]))
+                                    else:
+                                        agg.outcomes["verdict-after-rejected-call-ok"] += 1
         agg.sample({"invalid expect values": [repr(x) for x in INVALID]})
         return agg
     kind, nkeys, config, forms, nl, maxr = unit[:6]
@@ -188,9 +211,15 @@ def coverage_goals(ctx, agg):
     return [k for k in ("refused-as-required", "accepted-as-required", "invalid-expect-rejected") if agg.outcomes.get(k, 0) < 100]
 
 
+_FAMILY_UNITS = {'skewed sizes': 'skew', 'caller-owned key lists': 'args', 'repeated column name': 'dupnames', 'two joins on the same table objects': 'twice', 'self-join': 'self', 'expect string built at run time': 'expectstr'}
+
+
 def replay(rec):
     from serif.errors import SerifValueError
     case = rec.get("case") or {}
+    if case.get("family") in _FAMILY_UNITS:          # a designated family (mc/joinextra.py): re-run the family, compare signatures
+        from mc import joinextra
+        return set(joinextra.run_extra_unit(("extra", _FAMILY_UNITS[case["family"]]), METHODS, all_expects=True).viol)
     if "left_keys" not in case or case.get("expect") not in VALID:
         return None
     lkeys = [tuple(k) for k in case["left_keys"]]
